@@ -103,7 +103,7 @@ Qed.
 
 
 Section SimpleSelect.
-  Variables (e : env) (stmt : node) (targets rvs : list node).
+  Variables (e : env) (strict : bool) (stmt : node) (targets rvs : list node).
   Hypothesis Hkind : kind_of stmt = "SelectStmt".
   Hypothesis Hwith : kid "WithClause" stmt = Nil.
   Hypothesis Htl : kid "TargetList" stmt = NList targets.
@@ -114,7 +114,8 @@ Section SimpleSelect.
   Hypothesis Hrv : Forall (fun rv => kind_of rv = "RangeVar") rvs.
   (* no column references or sub-selects outside the result list *)
   Let others := [kid "FromClause" stmt; kid "WhereClause" stmt; kid "GroupClause" stmt; kid "HavingClause" stmt; kid "SortClause" stmt].
-  Hypothesis Hothers : level_refs (NList others) = [].
+  (* strict: no column reference outside the result list; otherwise: none that is paired with a parameter *)
+  Hypothesis Hothers : (if strict then level_refs (NList others) else paired_refs (NList others)) = [].
   Hypothesis Hsub : level_subselects (NList (others ++ map (kid "Val") targets ++ [])) = [].
   Hypothesis Hvals : level_refs (NList (map (kid "Val") targets)) = map (kid "Val") targets.
   Hypothesis Hnd : NoDup (map visible_name rvs).
@@ -122,7 +123,7 @@ Section SimpleSelect.
     Forall (fun it => NoDup (map sc_name (si_cols it))) sc /\ Forall (simple_target sc) targets.
 
   Theorem simple_select_refines_t f g :
-    match describe (env_cat e) true true (S (S f)) [] [] stmt, output_columns (S g) e [] stmt with
+    match describe (env_cat e) strict true (S (S f)) [] [] stmt, output_columns (S g) e [] stmt with
     | POk row, Ok cols => Forall2 col_rel row cols
     | PErr _, Err _ => True
     | _, _ => False
@@ -190,24 +191,24 @@ Section SimpleSelect.
 
   (** names only *)
   Theorem simple_select_refines f g :
-    match describe (env_cat e) true true (S (S f)) [] [] stmt, output_columns (S g) e [] stmt with
+    match describe (env_cat e) strict true (S (S f)) [] [] stmt, output_columns (S g) e [] stmt with
     | POk row, Ok cols => map sc_name row = map qc_name cols
     | PErr _, Err _ => True
     | _, _ => False
     end.
   Proof.
     pose proof (simple_select_refines_t f g) as H.
-    destruct (describe (env_cat e) true true (S (S f)) [] [] stmt); destruct (output_columns (S g) e [] stmt); auto.
+    destruct (describe (env_cat e) strict true (S (S f)) [] [] stmt); destruct (output_columns (S g) e [] stmt); auto.
     apply Forall2_names, H.
   Qed.
 
   (** acceptance only (C10) *)
   Theorem simple_select_decision f g :
-    (exists row, describe (env_cat e) true true (S (S f)) [] [] stmt = POk row)
+    (exists row, describe (env_cat e) strict true (S (S f)) [] [] stmt = POk row)
     <-> (exists cols, output_columns (S g) e [] stmt = Ok cols).
   Proof.
     pose proof (simple_select_refines_t f g) as H.
-    destruct (describe (env_cat e) true true (S (S f)) [] [] stmt) as [row|e1]; destruct (output_columns (S g) e [] stmt) as [cols|m|m];
+    destruct (describe (env_cat e) strict true (S (S f)) [] [] stmt) as [row|e1]; destruct (output_columns (S g) e [] stmt) as [cols|m|m];
       try contradiction; split; intros [x Hx]; try discriminate; eauto.
   Qed.
 End SimpleSelect.
